@@ -253,7 +253,7 @@ PROPS["C01"] = {'claimed': True,
          'GAP replies ready / in-ring / not-ready / slave / wrong source / wrong destination / status != Ok), rings of 3..4 known stations whose '
          'successor vanishes and returns, re-claims after the other masters died (GAP cursor mid-sweep / waiting), short TTR with applications that never decline / whose '
          'requests time out after another application declined, PHY busy longer than the predicted transmission with successors answering late, replies that break off after their first bytes, masters that die in the middle of '
-         'a token telegram; every case runs '
+         'a token telegram, min_tsdr_bits 11 (two thirds) / 12 / 20 / 60 / 97 / 150 / 255, max_retry 1..15, TTR up to the builder maximum; every case runs '
          'under a wall-clock watchdog (TIMEOUT); non-trivial = polls that transmit, accept a token, deliver a reply / time-out or run a GAP branch',
  'trusted_base': ['hand model coq/Model/Fdl.v of src/fdl/active.rs (all of it: states, legality assertions, poll_inner branch for branch), on top of '
                   "Telegram.v / Phy.v / TokenRing.v / Params.v; tied by differential execution poll by poll on this run's histories (all outputs, "
@@ -295,7 +295,7 @@ PROPS["C05"] = {'claimed': True,
          'GAP replies ready / in-ring / not-ready / slave / wrong source / wrong destination / status != Ok), rings of 3..4 known stations whose '
          'successor vanishes and returns, re-claims after the other masters died (GAP cursor mid-sweep / waiting), short TTR with applications that never decline / whose '
          'requests time out after another application declined, PHY busy longer than the predicted transmission with successors answering late, replies that break off after their first bytes, masters that die in the middle of '
-         'a token telegram; every case runs '
+         'a token telegram, min_tsdr_bits 11 (two thirds) / 12 / 20 / 60 / 97 / 150 / 255, max_retry 1..15, TTR up to the builder maximum; every case runs '
          'under a wall-clock watchdog (TIMEOUT); non-trivial = polls that transmit, accept a token, deliver a reply / time-out or run a GAP branch',
  'trusted_base': ['hand model coq/Model/Fdl.v of src/fdl/active.rs (all of it: states, legality assertions, poll_inner branch for branch), on top of '
                   "Telegram.v / Phy.v / TokenRing.v / Params.v; tied by differential execution poll by poll on this run's histories (all outputs, "
@@ -336,7 +336,7 @@ PROPS["C06"] = {'claimed': True,
          'GAP replies ready / in-ring / not-ready / slave / wrong source / wrong destination / status != Ok), rings of 3..4 known stations whose '
          'successor vanishes and returns, re-claims after the other masters died (GAP cursor mid-sweep / waiting), short TTR with applications that never decline / whose '
          'requests time out after another application declined, PHY busy longer than the predicted transmission with successors answering late, replies that break off after their first bytes, masters that die in the middle of '
-         'a token telegram; every case runs '
+         'a token telegram, min_tsdr_bits 11 (two thirds) / 12 / 20 / 60 / 97 / 150 / 255, max_retry 1..15, TTR up to the builder maximum; every case runs '
          'under a wall-clock watchdog (TIMEOUT); non-trivial = polls that transmit, accept a token, deliver a reply / time-out or run a GAP branch',
  'trusted_base': ['hand model coq/Model/Fdl.v of src/fdl/active.rs (all of it: states, legality assertions, poll_inner branch for branch), on top of '
                   "Telegram.v / Phy.v / TokenRing.v / Params.v; tied by differential execution poll by poll on this run's histories (all outputs, "
@@ -364,7 +364,7 @@ PROPS["C11"] = {'claimed': True,
          'GAP replies ready / in-ring / not-ready / slave / wrong source / wrong destination / status != Ok), rings of 3..4 known stations whose '
          'successor vanishes and returns, re-claims after the other masters died (GAP cursor mid-sweep / waiting), short TTR with applications that never decline / whose '
          'requests time out after another application declined, PHY busy longer than the predicted transmission with successors answering late, replies that break off after their first bytes, masters that die in the middle of '
-         'a token telegram; every case runs '
+         'a token telegram, min_tsdr_bits 11 (two thirds) / 12 / 20 / 60 / 97 / 150 / 255, max_retry 1..15, TTR up to the builder maximum; every case runs '
          'under a wall-clock watchdog (TIMEOUT); non-trivial = polls that transmit, accept a token, deliver a reply / time-out or run a GAP branch',
  'trusted_base': ['hand model coq/Model/Fdl.v of src/fdl/active.rs (all of it: states, legality assertions, poll_inner branch for branch), on top of '
                   "Telegram.v / Phy.v / TokenRing.v / Params.v; tied by differential execution poll by poll on this run's histories (all outputs, "
@@ -392,7 +392,7 @@ PROPS["C12"] = {'claimed': True,
          'GAP replies ready / in-ring / not-ready / slave / wrong source / wrong destination / status != Ok), rings of 3..4 known stations whose '
          'successor vanishes and returns, re-claims after the other masters died (GAP cursor mid-sweep / waiting), short TTR with applications that never decline / whose '
          'requests time out after another application declined, PHY busy longer than the predicted transmission with successors answering late, replies that break off after their first bytes, masters that die in the middle of '
-         'a token telegram; every case runs '
+         'a token telegram, min_tsdr_bits 11 (two thirds) / 12 / 20 / 60 / 97 / 150 / 255, max_retry 1..15, TTR up to the builder maximum; every case runs '
          'under a wall-clock watchdog (TIMEOUT); non-trivial = polls that transmit, accept a token, deliver a reply / time-out or run a GAP branch',
  'trusted_base': ['hand model coq/Model/Fdl.v of src/fdl/active.rs (all of it: states, legality assertions, poll_inner branch for branch), on top of '
                   "Telegram.v / Phy.v / TokenRing.v / Params.v; tied by differential execution poll by poll on this run's histories (all outputs, "
@@ -463,7 +463,7 @@ PROPS["C13"] = {'claimed': False,
          'GAP replies ready / in-ring / not-ready / slave / wrong source / wrong destination / status != Ok), rings of 3..4 known stations whose '
          'successor vanishes and returns, re-claims after the other masters died (GAP cursor mid-sweep / waiting), short TTR with applications that never decline / whose '
          'requests time out after another application declined, PHY busy longer than the predicted transmission with successors answering late, replies that break off after their first bytes, masters that die in the middle of '
-         'a token telegram; every case runs '
+         'a token telegram, min_tsdr_bits 11 (two thirds) / 12 / 20 / 60 / 97 / 150 / 255, max_retry 1..15, TTR up to the builder maximum; every case runs '
          'under a wall-clock watchdog (TIMEOUT); non-trivial = polls that transmit, accept a token, deliver a reply / time-out or run a GAP branch',
  'trusted_base': ['hand model coq/Model/Fdl.v of src/fdl/active.rs (all of it: states, legality assertions, poll_inner branch for branch), on top of '
                   "Telegram.v / Phy.v / TokenRing.v / Params.v; tied by differential execution poll by poll on this run's histories (all outputs, "
@@ -496,7 +496,7 @@ PROPS["C15"] = {'claimed': False,
          'GAP replies ready / in-ring / not-ready / slave / wrong source / wrong destination / status != Ok), rings of 3..4 known stations whose '
          'successor vanishes and returns, re-claims after the other masters died (GAP cursor mid-sweep / waiting), short TTR with applications that never decline / whose '
          'requests time out after another application declined, PHY busy longer than the predicted transmission with successors answering late, replies that break off after their first bytes, masters that die in the middle of '
-         'a token telegram; every case runs '
+         'a token telegram, min_tsdr_bits 11 (two thirds) / 12 / 20 / 60 / 97 / 150 / 255, max_retry 1..15, TTR up to the builder maximum; every case runs '
          'under a wall-clock watchdog (TIMEOUT); non-trivial = polls that transmit, accept a token, deliver a reply / time-out or run a GAP branch',
  'trusted_base': ['hand model coq/Model/Fdl.v of src/fdl/active.rs (all of it: states, legality assertions, poll_inner branch for branch), on top of '
                   "Telegram.v / Phy.v / TokenRing.v / Params.v; tied by differential execution poll by poll on this run's histories (all outputs, "
@@ -857,7 +857,7 @@ PROPS["C13"] = {'claimed': True,
          'GAP replies ready / in-ring / not-ready / slave / wrong source / wrong destination / status != Ok), rings of 3..4 known stations whose '
          'successor vanishes and returns, re-claims after the other masters died (GAP cursor mid-sweep / waiting), short TTR with applications that never decline / whose '
          'requests time out after another application declined, PHY busy longer than the predicted transmission with successors answering late, replies that break off after their first bytes, masters that die in the middle of '
-         'a token telegram; every case runs '
+         'a token telegram, min_tsdr_bits 11 (two thirds) / 12 / 20 / 60 / 97 / 150 / 255, max_retry 1..15, TTR up to the builder maximum; every case runs '
          'under a wall-clock watchdog (TIMEOUT); non-trivial = polls that transmit, accept a token, '
          'deliver a reply / time-out or run a GAP branch',
  'trusted_base': ['hand model coq/Model/Fdl.v of src/fdl/active.rs (all of it: states, legality assertions, poll_inner branch for branch), on top of '
@@ -912,7 +912,7 @@ PROPS["C15"] = {'claimed': True,
          'GAP replies ready / in-ring / not-ready / slave / wrong source / wrong destination / status != Ok), rings of 3..4 known stations whose '
          'successor vanishes and returns, re-claims after the other masters died (GAP cursor mid-sweep / waiting), short TTR with applications that never decline / whose '
          'requests time out after another application declined, PHY busy longer than the predicted transmission with successors answering late, replies that break off after their first bytes, masters that die in the middle of '
-         'a token telegram; every case runs '
+         'a token telegram, min_tsdr_bits 11 (two thirds) / 12 / 20 / 60 / 97 / 150 / 255, max_retry 1..15, TTR up to the builder maximum; every case runs '
          'under a wall-clock watchdog (TIMEOUT); non-trivial = polls that transmit, accept a token, '
          'deliver a reply / time-out or run a GAP branch',
  'trusted_base': ['hand model coq/Model/Fdl.v of src/fdl/active.rs (all of it: states, legality assertions, poll_inner branch for branch), on top of '
